@@ -45,8 +45,14 @@ func NewQueue[T any](opts ...options.Option[Queue[T]]) (queue *Queue[T]) {
 
 // Add inserts a new element into the queue that can be retrieved via Poll() at the specified time.
 func (t *Queue[T]) Add(value T, scheduledTime time.Time) (addedElement *QueueElement[T]) {
-	// prevent modifications of a shutdown queue
+	// acquire locks
+	t.heapMutex.Lock()
+
+	// prevent modifications of a shutdown queue (checked while holding the heap lock: the pollers test the shutdown
+	// flag of an empty queue under the same lock, so an accepted element is always seen by them)
 	if t.IsShutdown() {
+		t.heapMutex.Unlock()
+
 		if t.shutdownFlags.HasBits(PanicOnModificationsAfterShutdown) {
 			panic("tried to modify a shutdown TimedQueue")
 		}
@@ -55,9 +61,6 @@ func (t *Queue[T]) Add(value T, scheduledTime time.Time) (addedElement *QueueEle
 	}
 
 	verifYield("add-after-shutdown-check")
-
-	// acquire locks
-	t.heapMutex.Lock()
 
 	// add new element
 
